@@ -16,7 +16,8 @@ PROP = "C13"
 RULE = (
     "annotations of 1-8 lines in which every line exhibits the file dialect (so each window of each checklines value "
     "recovers it), incl. '.' coordinates and zero-length (end = start-1) rows; supplied as path, gzip path, string, list of "
-    "Features, one-shot generator, DataIterator and FeatureDB; checklines 0..n+2; transform none / tagging / dropping rows "
+    "Features, one-shot generator (and other one-shot iterators: list iterator, map object, a class with __next__), "
+    "DataIterator and FeatureDB; checklines 0..n+2; transform none / tagging / dropping rows "
     "by index with a generated false value; inspect() with generated look_for subsets and limits. Non-trivial = more lines "
     "than checklines+1, or a transform that drops a row. Distinct by hash."
 )
@@ -27,7 +28,24 @@ ASSUMPTIONS = [
     "a transform keeps at least one row (an empty input is rejected by design)",
 ]
 
-FORMS = ["path", "gzip", "string", "list", "generator", "dataiterator", "featuredb"]
+FORMS = ["path", "gzip", "string", "list", "generator", "dataiterator", "featuredb", "list_iterator", "map_object", "custom_iterator"]
+
+
+class _OneShot(object):
+    """A one-shot iterator that is neither a list nor a generator object."""
+
+    def __init__(self, items):
+        self._items = list(items)
+        self._i = 0
+
+    def __iter__(self):
+        return self
+
+    def __next__(self):
+        if self._i >= len(self._items):
+            raise StopIteration
+        self._i += 1
+        return self._items[self._i - 1]
 FALSY = {"None": None, "False": False, "0": 0, "empty-str": "", "empty-list": []}
 
 
@@ -132,6 +150,12 @@ class FormsLeg(object):
                 return [feature_from_line(l) for l in lines], {}
             if form == "generator":
                 return (feature_from_line(l) for l in lines), {}
+            if form == "list_iterator":
+                return iter([feature_from_line(l) for l in lines]), {}
+            if form == "map_object":
+                return map(feature_from_line, lines), {}
+            if form == "custom_iterator":
+                return _OneShot(feature_from_line(l) for l in lines), {}
             if form == "dataiterator":
                 return DataIterator(path, checklines=cl), {}
             if form == "featuredb":
@@ -232,7 +256,7 @@ class InspectLeg(object):
                 "records": recs,
                 "look_for": draw(st.lists(st.sampled_from(LOOK), unique=True, min_size=0, max_size=5)),
                 "limit": draw(st.one_of(st.none(), st.integers(1, n + 3))),
-                "form": draw(st.sampled_from(["path", "list", "generator", "featuredb"])),
+                "form": draw(st.sampled_from(["path", "list", "generator", "featuredb", "list_iterator"])),
             }
 
         return case()
@@ -260,6 +284,8 @@ class InspectLeg(object):
             data = [feature_from_line(l) for l in lines]
         elif form == "generator":
             data = (feature_from_line(l) for l in lines)
+        elif form == "list_iterator":
+            data = iter([feature_from_line(l) for l in lines])
         else:
             kw = dict(disable_infer_genes=True, disable_infer_transcripts=True) if d["style"] == "gtf" else {}
             data = gffutils.create_db(path, ":memory:", **kw)
